@@ -103,13 +103,21 @@ func Generate(seed uint64, opt core.Options) (*Config, []Op) {
 	for i := 0; i < 5; i++ {
 		cfg.Sizes = append(cfg.Sizes, rng.Range(1, 16))
 	}
+	if rng.Chance(1, 6) { // committees whose bitlists span many bytes
+		for i := range cfg.Sizes {
+			cfg.Sizes[i] = rng.Range(60, 140)
+		}
+	}
+	// validator indices and slots beyond one and two bytes in some runs
+	vbase := []uint64{0, 0, 300, 70000}[rng.Intn(4)]
+	slotBase := []uint64{0, 0, 70000}[rng.Intn(3)]
 	faults := opt.Params["faults"] != "0"
 	n := rng.Range(4, 50)
 	if opt.Tier == "thorough" {
 		n = rng.Range(4, 150)
 	}
 	spe := uint64(spec.SLOTS_PER_EPOCH)
-	curSlot := uint64(rng.Range(0, 20))
+	curSlot := uint64(rng.Range(0, 20)) + slotBase
 	var ops []Op
 	var sent []Op // message ops already sent (for duplicates / late re-delivery)
 	sigN := 0
@@ -195,17 +203,17 @@ func Generate(seed uint64, opt core.Options) (*Config, []Op) {
 			ops = append(ops, Op{K: "prune", Epoch: e})
 		case 6:
 			a, b := 1+rng.Intn(4), 1+rng.Intn(4)
-			ops = append(ops, Op{K: "aslash", A: a, B: b, V: uint64(rng.Intn(6))})
+			ops = append(ops, Op{K: "aslash", A: a, B: b, V: uint64(rng.Intn(6)) + vbase})
 		case 7:
 			if rng.Bool() {
-				ops = append(ops, Op{K: "pslash", V: uint64(rng.Intn(5)), A: 1 + rng.Intn(3)})
+				ops = append(ops, Op{K: "pslash", V: uint64(rng.Intn(5)) + vbase, A: 1 + rng.Intn(3)})
 			} else {
-				ops = append(ops, Op{K: "exit", V: uint64(rng.Intn(5)), Epoch: uint64(rng.Intn(3))})
+				ops = append(ops, Op{K: "exit", V: uint64(rng.Intn(5)) + vbase, Epoch: uint64(rng.Intn(3))})
 			}
 		case 8:
 			slot := syncSlot + uint64(rng.Intn(5)) - min64(syncSlot, 2)
 			sigN++
-			op := Op{K: "sync", Slot: slot, Root: 1 + rng.Intn(2), V: uint64(rng.Intn(8)), Sig: sigN}
+			op := Op{K: "sync", Slot: slot, Root: 1 + rng.Intn(2), V: uint64(rng.Intn(8)) + vbase, Sig: sigN}
 			ops = append(ops, op)
 		case 9:
 			slot := syncSlot + uint64(rng.Intn(5)) - min64(syncSlot, 2)
